@@ -2,7 +2,7 @@
 # tools/try_mutant.sh <patch.diff> <PROP> [<PROP>...]
 # Applies the patch to a scratch worktree of /repo (never to /repo itself), runs the quick checks of the
 # given properties against it (evidence/replays go to a scratch dir), prints one line per property, cleans up.
-diff="$1"; shift
+diff="$(realpath "$1")"; shift
 d=$(mktemp -d /tmp/trymut-XXXXXX); rmdir "$d"
 git -C /repo worktree add -q --detach "$d" HEAD || exit 3
 if ! git -C "$d" apply "$diff"; then echo "PATCH DOES NOT APPLY: $diff"; git -C /repo worktree remove --force "$d"; exit 3; fi
